@@ -36,7 +36,15 @@ type generator struct {
 func (g *generator) getGenMethods() []*generatedMethod {
 	genMethods := g.lookup.GetAll()
 	sort.Slice(genMethods, func(i, j int) bool {
-		return genMethods[i].Name < genMethods[j].Name
+		a, b := genMethods[i], genMethods[j]
+		if a.Name != b.Name {
+			return a.Name < b.Name
+		}
+		// equal names: keep the order independent of the map iteration in GetAll
+		if a.Signature.Source != b.Signature.Source {
+			return a.Signature.Source < b.Signature.Source
+		}
+		return a.Signature.Target < b.Signature.Target
 	})
 	return genMethods
 }
